@@ -31,7 +31,7 @@ func init() {
 		Run: c17Run,
 		Floors: func(m *Merged, tier string) []string {
 			var u []string
-			for _, c := range []string{"overlap_hash_path", "overlap_scan_path", "overlap_true", "overlap_false", "in_true", "in_false", "empty_literal_left", "empty_literal_right", "type_mismatch_errors", "sets_accepted", "symmetry_checked", "folded", "shared_is_max_first", "single_element_lists", "refill_in", "refill_overlap"} {
+			for _, c := range []string{"overlap_hash_path", "overlap_scan_path", "overlap_true", "overlap_false", "in_true", "in_false", "empty_literal_left", "empty_literal_right", "type_mismatch_errors", "sets_accepted", "symmetry_checked", "folded", "shared_is_max_first", "single_element_lists", "refill_in", "refill_overlap", "nil_slice_list_variables"} {
 				if m.C(c) == 0 {
 					u = append(u, c+" = 0")
 				}
@@ -179,6 +179,8 @@ func c17Run(w *W, idx int) {
 	}
 	c17Mismatch(w, r, la, lb)
 	c17Refill(w, r, la, lb, isS)
+	w.Count("nil_slice_list_variables", int64(c17NilLists))
+	c17NilLists = 0
 }
 
 // c17Refill: the caller owns the list it binds and may refill it in place between evaluations (a pooled request
@@ -279,6 +281,8 @@ const (
 	numPasses
 )
 
+var c17NilToggle, c17NilLists int
+
 func c17Operand(l c17List, p c17Pass, name string, consts, vals map[string]interface{}) (*Node, bool) {
 	switch p {
 	case passLit:
@@ -291,6 +295,18 @@ func c17Operand(l c17List, p c17Pass, name string, consts, vals map[string]inter
 		return ConstRef(name, l.value()), true
 	case passVar:
 		vals[name] = l.value()
+		if l.len() == 0 {
+			// an empty list held in a variable is, every other time, a nil slice (an unset field of the caller's data)
+			c17NilToggle++
+			if c17NilToggle%2 == 0 {
+				if l.isS {
+					vals[name] = []string(nil)
+				} else {
+					vals[name] = []int64(nil)
+				}
+				c17NilLists++
+			}
+		}
 		return Var(name, TAny), true
 	case passVarInt:
 		if l.isS {
